@@ -11,6 +11,7 @@ import hashlib
 import json
 import multiprocessing
 import os
+import pathlib
 import random
 import resource
 import shutil
@@ -101,15 +102,19 @@ def _limits(cpu_s, as_bytes):
     return f
 
 
+# one scratch root per check run (the process that first imports this module); forked workers and their
+# sub-processes put their own directories below it, and the run removes the whole root at its end
+os.environ.setdefault("VERIF_SCRATCH_ROOT", str(VERIF / ".scratch" / f"{os.getpid()}"))
+
+
 def scratch_dir():
-    d = VERIF / ".scratch" / f"{os.getpid()}"
+    d = pathlib.Path(os.environ["VERIF_SCRATCH_ROOT"]) / f"p{os.getpid()}"
     d.mkdir(parents=True, exist_ok=True)
     return d
 
 
 def cleanup_scratch():
-    d = VERIF / ".scratch" / f"{os.getpid()}"
-    shutil.rmtree(d, ignore_errors=True)
+    shutil.rmtree(os.environ["VERIF_SCRATCH_ROOT"], ignore_errors=True)
     try:
         (VERIF / ".scratch").rmdir()
     except OSError:
